@@ -26,7 +26,7 @@ def generate(tier, rng):
         cases.append(Case("plan", [gens.EMPTY_ENV, hx(s)], {"gen": "e"}))
     r = rng.fork("c05")
     n = 6000 if tier == "quick" else 100000
-    env = gens.env_field(vars={"A": "va", "B": "x y"}, exported={"HOME": "/h", "E": "1"}, aliases={"ls": "ls -l", "ll": "ls | wc"}, status=3)
+    env = gens.env_field(vars={"A": "va", "B": "x y"}, exported={"HOME": "/h", "E": "1"}, aliases={"ls": "ls -l", "ll": "ls | wc", "a": "b", "b": "a x", "foo": "echo | foo"}, status=3)     # incl. aliases that name each other
     for _ in range(n):
         line = gens.rand_line(r)
         cases.append(Case("tok", [hx(line)], {"gen": "g"}))
